@@ -31,15 +31,15 @@ type tvLeaf struct {
 var truthLeaves = map[string]tvLeaf{
 	"null": {false, "null"}, "np": {false, "nilptr"}, "nn": {false, "null"}, "undefinedName": {false, "null"},
 	"true": {true, "bool"}, "false": {false, "bool"},
-	"0": {false, "number"}, "(0*-1)": {false, "number"}, "0.0": {false, "number"}, "0e3": {false, "number"}, "(0/0)": {false, "number"},
-	"(1/0)": {true, "number"}, "(-1/0)": {true, "number"}, "1": {true, "number"}, "(-1)": {true, "number"}, "0.5": {true, "number"}, "1.50": {true, "number"}, "1e-30": {true, "number"}, "izero": {false, "number"}, "fzero": {false, "number"}, "fnan": {false, "number"},
+	"0": {false, "number"}, "(0*-1)": {false, "number"}, "0.0": {false, "number"}, "0e3": {false, "number"}, "fnan2": {false, "number"},
+	"finf": {true, "number"}, "fninf": {true, "number"}, "1": {true, "number"}, "(-1)": {true, "number"}, "0.5": {true, "number"}, "1.50": {true, "number"}, "1e-30": {true, "number"}, "izero": {false, "number"}, "fzero": {false, "number"}, "fnan": {false, "number"},
 	"''": {false, "string"}, "es": {false, "string"}, "'0'": {true, "string"}, "' '": {true, "string"}, "'a'": {true, "string"}, "'false'": {true, "string"}, "'x'": {true, "string"},
 	"[]": {true, "other"}, "[0]": {true, "other"}, "[1]": {true, "other"}, "m": {true, "other"}, "em": {true, "other"}, "st": {true, "other"}, "t": {true, "other"}, "len": {true, "other"}, "fn0": {true, "other"}, "earr": {true, "other"}, "t2": {true, "other"}, "t0": {true, "other"},
 }
 
 func truthSpec() map[string]spec.V {
 	return map[string]spec.V{
-		"np": {K: "nilptr"}, "nn": {K: "nil"}, "es": {K: "string", S: ""}, "izero": {K: "int", S: "0"}, "fzero": {K: "float64", S: "0"}, "fnan": {K: "float64", S: "NaN"},
+		"np": {K: "nilptr"}, "nn": {K: "nil"}, "es": {K: "string", S: ""}, "izero": {K: "int", S: "0"}, "fzero": {K: "float64", S: "0"}, "fnan": {K: "float64", S: "NaN"}, "fnan2": {K: "float64", S: "NaN"}, "finf": {K: "float64", S: "+Inf"}, "fninf": {K: "float64", S: "-Inf"},
 		"m":    {K: "map", M: map[string]spec.V{"a": {K: "int", S: "1"}}},
 		"em":   {K: "map", M: map[string]spec.V{}},
 		"earr": {K: "slice"},
@@ -329,12 +329,12 @@ func sortedLeaves() []string {
 	return out
 }
 
-var truthBranches = []string{"1.50", "'x'", "[1]", "null", "m", "0", "''", "false", "true", "'0'", "(0*-1)", "(0/0)", "t", "t2", "st", "fn0", "earr", "np"}
+var truthBranches = []string{"1.50", "'x'", "[1]", "null", "m", "0", "''", "false", "true", "'0'", "(0*-1)", "fnan", "finf", "t", "t2", "st", "fn0", "earr", "np"}
 
 // TestC06Exhaustive: each operator x all condition values x a block of branch values.
 func TestC06Exhaustive(t *testing.T) {
 	leaves := sortedLeaves()
-	run := h.Begin("C06", "exhaustive", fmt.Sprintf("bounded-exhaustive: !!c and !c for each of %d condition values (null in four guises, booleans, numbers incl. 0, -0, 0.0, NaN, +-infinity, Go zero/NaN data values, strings incl. '' and '0', arrays, maps, struct, time, builtin and host functions); c ? a : b, c && b, c || b, c ?? b for every condition x a %dx%d block of branch values whose representation is visible (1.50, 'x', [1], null, a map, 0, '', false, -0, NaN); oracle: the truthiness table of the statement and 'the selected operand's value unchanged' (numbers by representation, maps by identity); non-trivial: the condition is not a boolean literal", len(leaves), len(truthBranches), len(truthBranches)))
+	run := h.Begin("C06", "exhaustive", fmt.Sprintf("bounded-exhaustive: !!c and !c for each of %d condition values (null in four guises, booleans, numbers incl. 0, -0, 0.0 and Go zero / NaN / +-Inf data values (non-finite numbers enter through the data map: what division by zero yields is left open), strings incl. '' and '0', arrays, maps, struct, time, builtin and host functions); c ? a : b, c && b, c || b, c ?? b for every condition x a %dx%d block of branch values whose representation is visible (1.50, 'x', [1], null, a map, 0, '', false, -0, NaN); oracle: the truthiness table of the statement and 'the selected operand's value unchanged' (numbers by representation, maps by identity); non-trivial: the condition is not a boolean literal", len(leaves), len(truthBranches), len(truthBranches)))
 	defer run.End(t)
 	var idx int64
 	try := func(tree *ref.Node, nt bool, cls string) {
